@@ -93,6 +93,10 @@ def stepC06 (st : DSt) (j : Json) : Except String (DSt × Json) := do
     if isBox && lo.length != hi.length then throw "bounds of different lengths"
     return ({ cfg := some { n := n, γ := γ, lam := lam, lazyVec := lazyVec, kind := k, lo := lo, hi := hi }, carry := none },
             objJ [("ok", boolJ true), ("act", strJ (kindStr k))])
+  | "set_env" =>
+    -- `set_env(env, force_reset=True)`: `self._last_obs = None`; the next `_setup_learn` takes the "no previous
+    -- observation" branch of `setupLearn` (environment reset, episode starts all true) whatever `reset_num_timesteps` is
+    return ({ st with carry := none }, objJ [("ok", boolJ true)])
   | "learn" =>
     let some cfg := st.cfg | throw "no-config"
     let reset ← getBool j "reset"
